@@ -394,11 +394,13 @@ let run_mdd_cmd lines =
   let inst = ref None in
   let cache = ref [] in let dom = ref [] in
   let last : (tstate cinput * tstate mdd) option array = Array.make 3 None in
+  let tainted = ref false in
   List.iter (fun l ->
     if starts_with "I " l then begin
-      let ti = parse_inst l in inst := Some ti; cache := tb_cache_init ti; dom := tb_dom_init ti;
+      let ti = parse_inst l in inst := Some ti; cache := tb_cache_init ti; dom := tb_dom_init ti; tainted := false;
       Array.fill last 0 3 None end
     else if starts_with "RS" l then begin
+      tainted := false;
       match !inst with Some ti -> cache := tb_cache_init ti; dom := tb_dom_init ti | None -> () end
     else if starts_with "CP " l then begin
       let c = mk_cur l in let depth = next_n c in let value = next_z c in let e = next_b c in
@@ -419,21 +421,25 @@ let run_mdd_cmd lines =
       let inp = tb_input ti (flavour_of flv) (ctype_of ct) width lb usecache usedom cutk root in
       let c0 = if usecache then !cache else [] in
       let d0 = !dom in
+      if !tainted && (usecache || usedom) then print_endline "M TAINTED" else begin
       let (m0, o0) = tb_compile inp O O c0 d0 O in
       let (n1, n2) = (match o0 with Compiled -> tb_candidates inp m0 | _ -> (O, O)) in
       let n1 = max 1 (int_of_nat n1) and n2 = max 1 (int_of_nat n2) in
-      (* every choice of the tie-break oracle: alternatives separated by " || " *)
+      (* every choice of the tie-break oracle: alternatives separated by " || ", each with its own poll count and call log
+         (the cache updates of compute_thresholds depend on which of the equally valued terminal nodes is the best node) *)
       let alts = ref [] in
       for t1 = 0 to n1 - 1 do for t2 = 0 to n2 - 1 do
         let (m, o) = if t1 = 0 && t2 = 0 then (m0, o0) else tb_compile inp (nat_of_int t1) (nat_of_int t2) c0 d0 O in
-        let s = m_result inp m o ct in
-        if not (List.mem s !alts) then alts := !alts @ [s]
+        let lg = String.concat " ; " (List.rev_map event_str m.m_log) in
+        let s = Printf.sprintf "%s # POLLS=%s # LOG=%s" (m_result inp m o ct) (string_of_nat m.m_polls) lg in
+        if not (List.mem s !alts) then alts := !alts @ [s];
+        (* the stores left behind depend on the tie: the rest of this store epoch cannot be compared line by line *)
+        if (usecache && m.m_cache <> m0.m_cache) || m.m_dom <> m0.m_dom then tainted := true
       done done;
       if usecache then cache := m0.m_cache;
       dom := m0.m_dom;
       last.(flv) <- (match o0 with Compiled -> Some (inp, m0) | _ -> None);
-      let lg = String.concat " ; " (List.rev_map event_str m0.m_log) in
-      Printf.printf "M %s # POLLS=%s # LOG=%s\n" (String.concat " || " !alts) (string_of_nat m0.m_polls) lg
+      Printf.printf "M %s\n" (String.concat " || " !alts) end
     end) lines
 
 (* ---------------------------------------------------------------- solver *)
